@@ -27,7 +27,7 @@ RULE = ('Hypothesis draws skool files (1-3 entries; title, 0-3 description parag
         'Non-trivial: at least one comment was wrapped onto >= 2 output lines and there is a group of >= 2 instructions; '
         'distinct = digest of (file, settings).')
 ASSUMPTIONS = [
-    'annotation text is macro-free (macro expansion is C17\'s subject); no word consists only of dots; braces are balanced and never the first or last character of a comment',
+    'annotation text is macro-free (macro expansion is C17\'s subject); no word consists only of dots; braces are balanced and never the first or last character of a comment (except instruction comments in control files, where sna2skool is documented to pad them)',
     'register names are written without delimiters (a delimited name is documented to lose its delimiters)',
     'HTML output is compared after unescaping entities; only white space may differ',
 ]
@@ -172,6 +172,10 @@ def _size(op):
 
 @st.composite
 def asm_cases(draw):
+    # drawn first: Hypothesis often completes a large example with minimal choices, which made a '== 0' gate drawn
+    # after the file fire in half of the cases (and tab=1 switches the width oracle off)
+    tab, crlf = draw(st.sampled_from([0, 0, 0, 0, 0, 1])), draw(st.sampled_from([0, 0, 0, 0, 0, 1]))
+    kind = draw(st.sampled_from(['asm', 'asm', 'html']))
     skool, model = draw(skool_files())
     props = {'line-width': draw(st.sampled_from([79, 79, 40, 50, 120, 200]) | st.integers(40, 200))}
     if draw(st.integers(0, 3)) == 0:
@@ -188,11 +192,11 @@ def asm_cases(draw):
         # settings that cannot be honoured together are not generated
         props.pop('comment-width-min', None)
         props['instruction-width'] = max(8, props['line-width'] - props.get('indent', 2) - 3 - 10)
-    if draw(st.integers(0, 5)) == 0:
+    if tab:
         props['tab'] = 1
-    if draw(st.integers(0, 5)) == 0:
+    if crlf:
         props['crlf'] = 1
-    return {'kind': draw(st.sampled_from(['asm', 'asm', 'html'])), 'skool': skool, 'model': model, 'props': props}
+    return {'kind': kind, 'skool': skool, 'model': model, 'props': props}
 
 
 def words(text):
@@ -305,8 +309,11 @@ def asm_oracle(case, rec=None):
                 unexplained.append(l)
     if unexplained:
         raise Violation('asm:width', 'line of %d characters exceeds line-width=%d without an unbreakable word: %r' % (len(unexplained[0]), width, unexplained[0][:100]), _slim(case))
+    over_i = [l for l in over if not l.startswith(';')]
+    if len(over_i) > warned:
+        raise Violation('asm:no-warning:instruction', '%d instruction line(s) exceed line-width=%d but skool2asm printed %d warning(s); e.g. %r' % (
+            len(over_i), width, warned, over_i[0][:80]), _slim(case))
     if len(over) > warned:
-        kinds = 'comment-line' if all(l.startswith(';') for l in over) else 'instruction-line'
         raise Violation('asm:no-warning:' + ('non-instruction' if any(l.startswith(';') for l in over) else 'instruction'),
                         '%d line(s) exceed line-width=%d but skool2asm printed %d warning(s); e.g. %r' % (len(over), width, warned, over[0][:80]), _slim(case))
     if rec is not None:
@@ -479,7 +486,13 @@ def ctl_cases(draw):
                 out.append('N %s %s' % (addr, ' '.join(mid)))
             blk['first_sub'] = False
             if draw(st.integers(0, 1)):
-                c = draw(TEXT)
+                c = list(draw(TEXT))
+                # braces at the edges of an instruction comment: sna2skool must pad them ('{ {x} ... }', '... {y} }')
+                edge = draw(st.sampled_from([0, 0, 1, 2, 3]))
+                if edge & 1:
+                    c.insert(0, draw(st.sampled_from(['{first}', '{a}b', '{x{y}}'])))
+                if edge & 2:
+                    c.append(draw(st.sampled_from(['{buffer}', 'a{b}', '{{p}q}'])))
                 out.append('%s %s' % (line, ' '.join(c)))
             else:
                 c = []
